@@ -456,7 +456,9 @@ Definition parse_account_directive (fuel : nat) (startPos : tpos) (ps : pstate) 
     let name0 := tk_val (cur ps) in
     let npos := tk_pos (cur ps) in
     let ps := adv ps in
-    let '(name, ps) := if is_ty (ctype ps) TText then (name0 ++ [32%N] ++ tk_val (cur ps), adv ps) else (name0, ps) in
+    let '(name, ps) :=
+      if is_ty (ctype ps) TText
+      then ((match tk_val (cur ps) with [] => name0 | v => name0 ++ [32%N] ++ v end), adv ps) else (name0, ps) in
     let '(cmt, tags, ps) :=
       if is_ty (ctype ps) TComment
       then (tk_val (cur ps), parse_tags (tk_val (cur ps)) (tk_pos (cur ps)), adv ps) else ([], [], ps) in
